@@ -650,6 +650,13 @@ def _cmp_atoms(canon, left, op, right, leaf):
         return f_not(leaf(ast.Compare(left, [ast.Lt()], [right]), "%s < %s" % (lt, rt)))
     if isinstance(op, ast.LtE):
         return f_not(leaf(ast.Compare(right, [ast.Lt()], [left]), "%s < %s" % (rt, lt)))
+    if isinstance(op, (ast.Is, ast.IsNot)) and isinstance(left, ast.Constant) and isinstance(right, ast.Constant) \
+            and (left.value is None or right.value is None or (isinstance(left.value, bool) and isinstance(right.value, bool))):
+        same = left.value is right.value
+        return same if isinstance(op, ast.Is) else (not same)
+    if isinstance(op, (ast.Is, ast.IsNot)) and isinstance(right, ast.Constant) and right.value is None \
+            and isinstance(left, (ast.Dict, ast.List, ast.Tuple, ast.Set, ast.ListComp, ast.DictComp, ast.JoinedStr, ast.Lambda)):
+        return isinstance(op, ast.IsNot)        # a display is never None
     if isinstance(op, (ast.Is, ast.IsNot)):
         f = leaf(ast.Compare(left, [ast.Is()], [right]), "%s is %s" % (lt, rt))
         return f if isinstance(op, ast.Is) else f_not(f)
@@ -760,6 +767,8 @@ class SymWalker:
         self.guards = {}        # id(If / While / Assert node) -> formula of its test at that program point
         self.tests = {}         # id(node) -> canonical test expression
         self.loop_out = {}      # id(loop) -> [State] at the end of one iteration, carried names appear as themselves
+        self.loop_seq = {}
+        self.unpack_risks = []  # (statement, reach): fixed-arity unpacking of a split whose arity this path does not guarantee
         self.loop_in = {}       # id(loop) -> [State] on entry (before havoc)
         self.final = []         # states falling off the end
         self.feasible = feasible or _prop_feasible
@@ -1251,6 +1260,7 @@ class SymWalker:
                 if unrolled:
                     return self._dedupe(unrolled + self.stmt(st, rest))
             assigned = self._assigned(st.body) | (self._assigned([st.target]) if is_for else set())
+            self.loop_seq.setdefault(id(st), len(self.loop_seq))       # loops are numbered in the order they are first reached
             self.loop_in[id(st)] = [State(dict(s.env), s.reach) for s in states]
             outs = []
             after = []
@@ -1362,6 +1372,13 @@ class SymWalker:
             v = self.sub(st.value)
             self._calls(st.value, st, reach)
             tg = st.targets if isinstance(st, ast.Assign) else [st.target]
+            if len(tg) == 1 and isinstance(tg[0], (ast.Tuple, ast.List)) and isinstance(v, ast.Call) and isinstance(v.func, ast.Attribute) and v.func.attr in ("split", "rsplit") and v.args:
+                # a, b = s.split(sep, 1) has exactly two parts when sep is in s -- on this path, is it?
+                n_t = len(tg[0].elts)
+                bounded = len(v.args) == 2 and isinstance(v.args[1], ast.Constant) and v.args[1].value == n_t - 1
+                inside = self.atomize(ast.Compare(copy.deepcopy(v.args[0]), [ast.In()], [copy.deepcopy(v.func.value)]), True)
+                if not (bounded and n_t == 2 and entails(reach, inside)):
+                    self.unpack_risks.append((getattr(st, "_orig", st), reach))
             for t in tg:
                 if isinstance(t, (ast.Name, ast.Tuple, ast.List)):
                     self._bind(t, v)
@@ -2178,7 +2195,8 @@ def summarize(func_node, canon, leaf=None, keep=()):
     w = SymWalker(func_node, canon, leaf, keep=keep, ignore_asserts=True)     # assertions are not behaviour a property may rest on (python -O removes them)
     w.run()
     raw = []     # (kind, [parts], cond formula)
-    loops = sorted([n for n in ast.walk(func_node) if isinstance(n, (ast.For, ast.While)) and id(n) in w.loop_out and w.converted.get(id(n), 0) <= 0], key=lambda n: (n.lineno, n.col_offset))
+    loops = sorted([n for n in ast.walk(func_node) if isinstance(n, (ast.For, ast.While)) and id(n) in w.loop_out and w.converted.get(id(n), 0) <= 0],
+                   key=lambda n: (w.loop_seq.get(id(n), 10 ** 6), n.lineno, n.col_offset))
     loop_no = {id(n): i for i, n in enumerate(loops)}
     locals_ = set(_first_store_pos(func_node)) - params
 
@@ -2643,7 +2661,7 @@ def _vname_mapping(details):
         for x, y in zip(ta, tb):
             if x == y:
                 continue
-            if not (re.fullmatch(r"_v\d+", x) and re.fullmatch(r"_v\d+", y)):
+            if not ((re.fullmatch(r"_v\d+", x) and re.fullmatch(r"_v\d+", y)) or (re.fullmatch(r"loop\d+", x) and re.fullmatch(r"loop\d+", y))):
                 return None
             if m.setdefault(y, x) != x:
                 return None
@@ -2651,16 +2669,17 @@ def _vname_mapping(details):
     if not seen or len(set(m.values())) != len(m):
         return None
     # complete to a permutation
-    missing_src = [v for v in m.values() if v not in m]
-    missing_dst = [k for k in m if k not in m.values()]
-    for a_, b_ in zip(sorted(missing_src), sorted(missing_dst)):
-        m[a_] = b_
+    for pre in ("_v", "loop"):
+        missing_src = [v for v in m.values() if v not in m and v.startswith(pre)]
+        missing_dst = [k for k in m if k not in m.values() and k.startswith(pre)]
+        for a_, b_ in zip(sorted(missing_src), sorted(missing_dst)):
+            m[a_] = b_
     return m
 
 
 def _rename_summary(sm, m):
     import re
-    pat = re.compile(r"(?<![A-Za-z0-9_])_v\d+(?![A-Za-z0-9_])")
+    pat = re.compile(r"(?<![A-Za-z0-9_])(?:_v|loop)\d+(?![A-Za-z0-9_])")
     ren = lambda t: pat.sub(lambda mo: m.get(mo.group(0), mo.group(0)), t)
 
     def rf(f):
@@ -2784,14 +2803,13 @@ def _condition_mutation(f_code, f_ref, all_code=None, all_ref=None):
     only_a, only_b = sorted(a - b), sorted(b - a)
     if len(only_a) == len(only_b) == 1 and _mutation_like(only_b[0], only_a[0], 2):
         return True
-    if POLICY != "strict" and (not only_a or not only_b):
-        # tests added (a case now skipped or refused) or dropped (a case no longer checked) -- provided the function as a
-        # whole only gained or only lost tests: one that lost some and gained others may test the same thing another way
+    if POLICY not in ("strict", "cautious") and not only_a and only_b:
+        # tests dropped: a case is no longer checked -- provided the function as a whole lost them (they did not move to
+        # another component) and gained none (it does not test the same thing another way).  Tests ADDED are no verdict:
+        # a defensive check that can never fire reads exactly like a new refusal.
         if all_code is None or all_ref is None:
             return True
-        if not only_a and not (all_code - all_ref):
-            return True
-        if not only_b and not (all_ref - all_code):
+        if not (all_code - all_ref) and not (set(only_b) & all_code):
             return True
     return False
 
